@@ -209,8 +209,8 @@ func c06GenU32(r *rand.Rand) uint32 {
 // c06ProfileTextSizes: lengths around the 16-bit limit of a length-prefixed text
 var c06ProfileNameSizes = []int{255, 65534, 65535, 65536, 65537, 70000, 131072}
 
-// c06ProfileValueSizes: top values up to the limit (a table cell cannot be longer, see C01)
-var c06ProfileValueSizes = []int{255, 65534, 65535}
+// c06ProfileValueSizes: top values at / beyond the limit of their 16-bit length prefix
+var c06ProfileValueSizes = []int{255, 65534, 65535, 65536, 70000}
 
 func c06GenProfileObj(r *rand.Rand) (*c06ProfileObj, []string) {
 	p := &c06ProfileObj{Version: c06GenU32(r), RowsCount: c06GenU32(r), Columns: []c06ColProfile{}}
